@@ -258,6 +258,9 @@ pub fn api_confirm(oi: u8, n: usize, a: &[A; 3], addr: u32, avr8l: bool, expect:
         return None;
     }
     let mut src = String::new();
+    // the device only matters to lds/sts (every other encoding is device independent, and
+    // ATtiny20 lacks several mnemonics, which would reject the line for an unrelated reason)
+    let avr8l = avr8l && is_direct(oi);
     if avr8l {
         src.push_str(".device ATtiny20\n");
     }
